@@ -195,6 +195,29 @@ func runC03(c *Ctx, r *Report) {
 		})
 		r.Check(okNL, "C03.R3", ssaFuncName(pf), "Println writes the newline exactly when not compact", c.Pos(pf.Pos()), "Println's newline is not conditioned on !Compact")
 	}
+	// shared C16.R3: tokens are interned under their whole value (formatting one input never prints text
+	// that an earlier input left in the process-wide table)
+	{
+		r.Rule("C16.R3", "(shared) the interning table is keyed by the whole token and is not shrunk while tokens are produced")
+		sub16 := NewReport("C16", r.Tier, c)
+		sub16.Sub = true
+		runC16(c, sub16)
+		n16 := 0
+		for _, o := range sub16.Obls {
+			if o.Rule != "C16.R3" || !(strings.Contains(o.Desc, "interning table") || strings.Contains(o.Desc, "not reachable from token production")) {
+				continue
+			}
+			n16++
+			if o.status == FAIL {
+				r.Fail(o.Rule, o.Func, o.Desc, o.Pos, o.Reason)
+			} else {
+				r.Ok(o.Rule, o.Func, o.Desc, o.Pos)
+			}
+		}
+		if n16 < 2 {
+			r.Undecided("C03: only %d shared C16.R3 obligations", n16)
+		}
+	}
 	// shared
 	sub := NewReport("C02", r.Tier, c)
 	sub.Sub = true
